@@ -201,15 +201,17 @@ type explorer struct {
 	r   *core.Run
 	ops []*opDef
 
-	mu     sync.Mutex
-	cands  []cand
-	zones  int64
-	progs  int64
-	ntriv  int64
-	evals  int64
-	sample int64
-	zoneIn int64
-	featN  [16]int64
+	mu      sync.Mutex
+	cands   []cand
+	zones   int64
+	progs   int64
+	ntriv   int64
+	evals   int64
+	sample  int64
+	laterN  int64
+	opIndex map[string]int
+	zoneIn  int64
+	featN   [16]int64
 }
 
 // stdlibDepth: forms-mode runtimes carry the standard library (11 more
@@ -239,6 +241,24 @@ func (e *explorer) kaseOf(mode string, hist []uint8, op int) kase {
 		k.Src = append(k.Src, e.ops[op].src)
 	}
 	return k
+}
+
+// judgeAs is judge for a case whose class carries a prefix the straight-line
+// rerun does not know: the rerun's class is compared by suffix.
+func (e *explorer) judgeAs(k kase, res result) {
+	if res.harness != "" {
+		e.r.Flaky(map[string]any{"case": k, "problem": res.harness})
+		return
+	}
+	for i := 0; i < 5; i++ {
+		again := runCase(k)
+		if len(again.diffs) == 0 || !strings.HasSuffix(res.class, again.class) {
+			e.r.Flaky(map[string]any{"case": k, "first": diffsString(res.diffs), "rerun": diffsString(again.diffs)})
+			return
+		}
+	}
+	e.r.Violate("c08", res.class, k, res.pred.String()+" and the model's table", res.got+" || "+diffsString(res.diffs),
+		"operation under test: "+res.lastOp.src+" (a later operation after a failed or handled cross-package call)")
 }
 
 // judge handles a disagreement: re-confirm 5x in fresh runtimes, then report.
@@ -326,6 +346,32 @@ func (e *explorer) transition(hist []uint8, op int, idx int64, alsoProgram bool)
 		e.cands = append(e.cands, cand{idx: idx, key: hashKey(res.postKey)})
 		e.mu.Unlock()
 	}
+	if e.ops[op].later && len(ops) <= laterDepth {
+		// the session goes on after the failed / handled call: each later
+		// operation is applied as a separate operation and checked in full
+		for _, ln := range laterOps {
+			li := e.opIndex[ln]
+			h := append(append(make([]uint8, 0, len(hist)+1), hist...), uint8(op))
+			lk := e.kaseOf("forms", h, li)
+			lops := append(append(make([]*opDef, 0, len(ops)+1), ops...), e.ops[li])
+			lres := runForms(lops, lk.Stdlib)
+			e.r.AddTransitions(1)
+			e.r.AddTraces(1)
+			atomic.AddInt64(&e.laterN, 1)
+			atomic.AddInt64(&e.evals, int64(len(lops)))
+			if lres.zoneSkip != "" {
+				continue
+			}
+			if lres.harness != "" || len(lres.diffs) > 0 {
+				if lres.class != "" {
+					lres.class = "after:" + e.ops[op].Class + ":" + lres.class
+				}
+				e.judgeAs(lk, lres)
+				continue
+			}
+			e.r.Outcome("later-operation after " + e.ops[op].Class + ": " + e.ops[li].Class)
+		}
+	}
 }
 
 func (e *explorer) program(hist []uint8) {
@@ -368,7 +414,20 @@ func run(r *core.Run) {
 	defer debug.SetGCPercent(debug.SetGCPercent(400))
 	defer debug.SetMemoryLimit(debug.SetMemoryLimit(5 << 30))
 	ops := alphabet(r.Thorough())
-	e := &explorer{r: r, ops: ops}
+	e := &explorer{r: r, ops: ops, opIndex: map[string]int{}}
+	for i, o := range ops {
+		e.opIndex[o.Name] = i
+	}
+	if len(ops) > 255 {
+		r.Violate("c08", "harness-error", nil, "alphabet fits the history encoding", fmt.Sprint(len(ops)), "")
+		return
+	}
+	for _, ln := range laterOps {
+		if _, ok := e.opIndex[ln]; !ok {
+			r.Violate("c08", "harness-error", nil, "later operation "+ln+" is in the alphabet", "it is not", "")
+			return
+		}
+	}
 
 	// start-up assertions of the harness (not of the property)
 	probeRT := newRT(true, false)
@@ -398,6 +457,19 @@ func run(r *core.Run) {
 	r.Bound("alphabet_size", len(ops))
 	r.Bound("full_alphabet_up_to_depth", fullDepth)
 	r.Bound("program_mode_per_transition_up_to_depth", progDepth)
+	r.Bound("later_operations", laterOps)
+	r.Bound("later_operations_up_to_depth", laterDepth+1)
+	limited := map[string]int{}
+	for _, o := range ops {
+		m := o.maxLenQ
+		if r.Thorough() {
+			m = o.maxLenT
+		}
+		if m > 0 {
+			limited[o.src] = m
+		}
+	}
+	r.Bound("depth_limited_operations(max history length incl. the operation)", limited)
 	var coreNames []string
 	for _, o := range ops {
 		if o.core {
@@ -422,6 +494,7 @@ func run(r *core.Run) {
 	r.Assume("errors are compared by condition name only; a reference through an unknown package, use-package of an unknown package and a qualified set into an unknown package are errors that create nothing")
 	r.Assume("UNSPECIFIED Z1: use-package of a package that exports a name it does not bind. The statement says which bindings are copied, not what happens to such a name; the model predicts the pinned behaviour (copy in sorted export order up to the unbound name, then an error) and a departure is tolerated (branch not expanded, counted as UNSPECIFIED-ZONE-DEPARTURE) if every exported name is, in the using package, either as before or as in the source, and nothing else changed")
 	r.Assume("UNSPECIFIED Z2: whether an attempt to bind true/false/:k is an error or is silently ineffective; asserted: the result never shows the rebinding, no table gains a name, the current package stays")
+	r.Assume("after any call returns or fails the package that was current before it is current again; ignore-errors answers nil for an absorbed error, handler-bind with the catch-all clause answers its handler's value (docs of both operators)")
 	r.Assume("in-package inside a FUNCTION body, set! on a qualified name, rebinding names of the language package, and exporting names of the language package are outside the alphabet (the statement does not speak about them)")
 	r.Assume("canonical state = current package + for every model package its export list and every non-base binding (integers by value; functions by kind, defining package, parameter list, body text and captured lexical bindings). Function identity (which bindings share one function object) is checked against the model in every state but is not part of the key: two functions with equal descriptions are observationally equal for every operation of the alphabet")
 
@@ -437,7 +510,7 @@ func run(r *core.Run) {
 		full := d <= fullDepth
 		var sub []int
 		for i, o := range ops {
-			if full || o.core {
+			if (full || o.core) && o.allowedAt(d, r.Thorough()) {
 				sub = append(sub, i)
 			}
 		}
@@ -490,6 +563,7 @@ func run(r *core.Run) {
 	r.Extra("max_depth_completed", maxDepth)
 	r.Extra("levels", levels)
 	r.Extra("program_mode_loads", atomic.LoadInt64(&e.progs))
+	r.Extra("later_operation_transitions", atomic.LoadInt64(&e.laterN))
 	r.Extra("nontrivial_transitions", atomic.LoadInt64(&e.ntriv))
 	r.Extra("unspecified_zone_departures", atomic.LoadInt64(&e.zones))
 	r.Extra("unspecified_zone_transitions_matching_prediction", atomic.LoadInt64(&e.zoneIn))
